@@ -29,6 +29,11 @@ class Construction:
              if (not x in self.positional_fieldnames) \
                  and (x != "record_type")]
 
+  def clone(self):
+    cpy = super().clone()
+    cpy._positional_fieldnames = list(self._positional_fieldnames)
+    return cpy
+
   def _initialize_positional_fields(self, strings):
     """delayed, see #delayed_inizialize_positional_fields"""
     pass
